@@ -273,6 +273,35 @@ impl<const N: usize> SecretKey<N> {
     }
 }
 
+#[cfg(feature = "verif-hooks")]
+impl<const N: usize> SecretKey<N> {
+    /// Verification hook: the four polynomials of b0 = [[g, -f], [G, -F]].
+    pub fn verif_basis(&self) -> [Vec<i16>; 4] {
+        self.b0.clone().map(|p| p.coefficients)
+    }
+
+    /// Verification hook: the leaf values of the normalised ffLDL tree, left to right.
+    pub fn verif_tree_leaves(&self) -> Vec<f64> {
+        fn walk(tree: &LdlTree, out: &mut Vec<f64>) {
+            match tree {
+                LdlTree::Branch(_, left, right) => {
+                    walk(left, out);
+                    walk(right, out);
+                }
+                LdlTree::Leaf(v) => out.push(v[0].re),
+            }
+        }
+        let mut out = vec![];
+        walk(&self.tree, &mut out);
+        out
+    }
+
+    /// Verification hook: build a secret key from an explicit basis.
+    pub fn verif_from_basis(b0: [Vec<i16>; 4]) -> Self {
+        Self::from_b0(b0.map(Polynomial::new))
+    }
+}
+
 impl<const N: usize> PartialEq for SecretKey<N> {
     fn eq(&self, other: &Self) -> bool {
         let own_f = &self.b0[1];
@@ -452,6 +481,8 @@ pub fn keygen<const N: usize>(seed: [u8; 32]) -> (SecretKey<N>, PublicKey<N>) {
 /// [1]: https://falcon-sign.info/falcon.pdf
 pub fn sign<const N: usize>(m: &[u8], sk: &SecretKey<N>) -> Signature<N> {
     let mut rng = thread_rng();
+    #[cfg(feature = "verif-hooks")]
+    let mut rng = crate::verif_hooks::SignRng::wrap(rng);
     let mut r = [0u8; 40];
     rng.fill_bytes(&mut r);
 
@@ -500,6 +531,8 @@ pub fn sign<const N: usize>(m: &[u8], sk: &SecretKey<N>) -> Signature<N> {
                 / (n as f64);
 
             if length_squared > (bound as f64) {
+                #[cfg(feature = "verif-hooks")]
+                crate::verif_hooks::count_norm_retry();
                 continue;
             }
 
@@ -519,6 +552,8 @@ pub fn sign<const N: usize>(m: &[u8], sk: &SecretKey<N>) -> Signature<N> {
                 break s;
             }
             None => {
+                #[cfg(feature = "verif-hooks")]
+                crate::verif_hooks::count_compress_retry();
                 continue;
             }
         };
